@@ -515,7 +515,7 @@ impl Property for C12 {
         Meta {
             level: "exploration",
             rule: "each run is a history of 5-60 Builder calls drawn regardless of whether they are legal now (failing calls are the fault dimension): begin/end function, parameters, begin_block / begin_block_no_label, all terminators and a rotating sample of block-instruction methods in plain and insert_ form (insertion points within the selected block), module-level, type and context-dependent calls (variable, undef, line, no_line), select_function / select_block with any index (in range, = len, huge, None), select_function_by_name, pop_instruction, id(); a quarter of the runs start with one of the stale-selection shapes; after every call: no panic, selection designates an existing function/block or nothing, Err iff the stated rule on the selection observed before the call, Err leaves the module unchanged, Ok has exactly the documented effect; abstract trace = sequence of (call class, outcome, selection shape before); non-trivial = >= 3 state changes or >= 1 failing call",
-            lanes: "failed calls must not move the selection either; indices 2^32+k and 2^j+k; functions with 255..1025 parameters and hundreds of blocks; entry-point / OpName names biased to the pool select_function_by_name uses; near-repeat lane and method-repeat post-pass; annotations aimed at the open function (decorate LinkageAttributes, name, execution_mode, ...); functions sharing one explicit id, named and selected by name while a later block is open",
+            lanes: "failed calls must not move the selection either; indices 2^32+k and 2^j+k; functions with 255..1025 parameters and hundreds of blocks; entry-point / OpName names biased to the pool select_function_by_name uses; near-repeat lane and method-repeat post-pass; annotations aimed at the open function (decorate LinkageAttributes, name, execution_mode, ...); functions sharing one explicit id, named and selected by name while a later block is open; switches whose case literals mix one- and two-word variants; recursive-type scenario (reserved ids, forward pointer, struct, pointer declared under the reserved id)",
             triple_measure: "(selection shape before the call, call class, ok/err)",
             item_measure: "Builder methods (of the generated table) whose effect was checked at least once",
             assumptions: &[
